@@ -31,6 +31,7 @@ type c19Case struct {
 	Background int      `json:"background,omitempty"`
 	Endings    []string `json:"endings,omitempty"`
 	StopAtEnd  bool     `json:"stop_at_end,omitempty"`
+	StopRace   string   `json:"stop_race,omitempty"` // Stop runs concurrently with: connecting | in-flight | tls-handshaking
 	Choices    []int    `json:"choices,omitempty"`
 }
 
@@ -123,6 +124,7 @@ type c19World struct {
 	bg      []*sched.Client
 	viol    []string
 	err     string
+	racers  []*vrt.Conn
 	ended   []string // server-side names of the connections that ended
 	stopped bool
 }
@@ -264,8 +266,14 @@ func (w *c19World) body() {
 		w.bg = append(w.bg, cl)
 	}
 	vrt.WaitQuiet()
-	for i, mode := range w.cs.Endings {
-		w.ending(mode, i)
+	if w.cs.StopRace == "" {
+		for i, mode := range w.cs.Endings {
+			w.ending(mode, i)
+		}
+	}
+	if w.cs.StopRace != "" {
+		w.stopRace()
+		return
 	}
 	// background connections must still be served
 	for i, cl := range w.bg {
@@ -281,6 +289,72 @@ func (w *c19World) body() {
 	}
 }
 
+// stopRace: Stop runs while other clients are connecting, have a command in
+// flight, or are in the middle of a TLS handshake.
+func (w *c19World) stopRace() {
+	var racers []*vrt.Conn
+	switch w.cs.StopRace {
+	case "connecting":
+		vrt.Go("client-racer", func() {
+			cl, o := sched.Dial(":6379")
+			if o.Status != "ok" {
+				return
+			}
+			racers = append(racers, cl.Raw())
+			cl.Do("PING")
+			cl.Recv()
+		})
+	case "backlog":
+		// dialled but not yet accepted when Stop begins; the client then sends PING
+		cl, o := sched.Dial(":6379")
+		if o.Status == "ok" {
+			racers = append(racers, cl.Raw())
+			vrt.Go("client-racer", func() {
+				cl.Do("PING")
+				cl.Recv()
+			})
+		}
+	case "in-flight":
+		cl, o := sched.Dial(":6379")
+		if o.Status == "ok" {
+			racers = append(racers, cl.Raw())
+			cl.Do("PING")
+			cl.Send([]byte("*3\r\n$3\r\nSET\r\n$1\r\nk\r\n$3\r\nab"))
+			vrt.Go("client-racer", func() {
+				cl.Send([]byte("c\r\n"))
+				cl.Recv()
+				cl.Recv()
+			})
+		}
+	case "tls-handshaking":
+		vrt.Go("client-racer", func() {
+			raw, err := vrt.Dial(":6380")
+			if err != nil {
+				return
+			}
+			racers = append(racers, raw)
+			tc := tls.Client(raw, w.kit.clientTLSConfig(w.kit.Clients["valid"]))
+			if tc.Handshake() == nil {
+				c := sched.Wrap(tc, raw)
+				c.Do("PING")
+				c.Recv()
+			}
+		})
+	case "tls-stalled":
+		raw, err := vrt.Dial(":6380")
+		if err == nil {
+			racers = append(racers, raw)
+			vrt.WaitQuiet() // the server is now waiting for a ClientHello that never comes
+		}
+	}
+	if err := w.srv.Stop(); err != nil {
+		w.fail("stop-note", "")
+		w.viol = w.viol[:len(w.viol)-1]
+	}
+	w.stopped = true
+	w.racers = racers
+}
+
 func (w *c19World) atQuiet(e *vrt.Exec) {
 	if w.err != "" || w.srv == nil {
 		return
@@ -292,8 +366,13 @@ func (w *c19World) atQuiet(e *vrt.Exec) {
 			}
 		}
 		for _, t := range e.ThreadStates() {
-			if t.ID != 0 && !t.Finished {
+			if t.ID != 0 && !t.Finished && t.Name != "client-racer" {
 				w.fail("goroutine-not-ended", fmt.Sprintf("Stop: server goroutine %s still alive, parked at %s", sched.ThreadSummaryName(t.Name), t.Parked))
+			}
+		}
+		for i, rc := range w.racers {
+			if !rc.PeerClosed() && !rc.ClosedLocally() {
+				w.fail("socket-not-closed", fmt.Sprintf("Stop: the connection of racing client %d (%s) was not closed by the server", i, w.cs.StopRace))
 			}
 		}
 		if n := len(w.srv.Conns()); n != 0 {
@@ -349,6 +428,15 @@ func c19Run(c *fw.Ctx) {
 		}
 	}
 	rec(nil)
+	for _, race := range []string{"connecting", "backlog", "in-flight", "tls-handshaking", "tls-stalled"} {
+		for bg := 0; bg <= 1; bg++ {
+			if !c.Mine() {
+				continue
+			}
+			cs := c19Case{Kind: "sched", Background: bg, StopRace: race, Endings: []string{"stop:" + race}}
+			c19Explore(c, cs, 2)
+		}
+	}
 	for _, endings := range seqs {
 		for bg := 0; bg <= 2; bg++ {
 			if !c.Mine() {
@@ -434,7 +522,7 @@ func init() {
 	fw.Register(&fw.Prop{
 		ID:          "C19",
 		Level:       "fault_enumeration",
-		Rule:        "(sequential) representative requests, alone and behind a PING: end of stream at EVERY byte offset with EOF and with reset, a Write failing from call 1..3, QUIT at each pipeline position (also with a failing write), every single-byte substitution of 18 valid streams; oracle: loop returned, transport closed, registry empty. (scheduled) a server with plain and TLS port started with Start(), 0..2 background connections, then every sequence of 1..2 (thorough 3) endings out of {EOF at a boundary, EOF inside a request, reset inside a request, QUIT, malformed frame, client that stops reading until the server's Write parks and then resets, TLS garbage handshake, TLS abort after ClientHello, TLS certificate rejected by the common-name rule, valid TLS client then reset, valid TLS client then orderly close}, real crypto/tls, every schedule with <=1 deviation; after each ending, at quiescence: the server closed that socket, no server goroutine is parked on it, the registry holds exactly the background connections, which are still served; finally Stop releases everything (sockets, goroutines, registry, listeners).",
+		Rule:        "(sequential) representative requests, alone and behind a PING: end of stream at EVERY byte offset with EOF and with reset, a Write failing from call 1..3, QUIT at each pipeline position (also with a failing write), every single-byte substitution of 18 valid streams; oracle: loop returned, transport closed, registry empty. (scheduled) a server with plain and TLS port started with Start(), 0..2 background connections, then every sequence of 1..2 (thorough 3) endings out of {EOF at a boundary, EOF inside a request, reset inside a request, QUIT, malformed frame, client that stops reading until the server's Write parks and then resets, TLS garbage handshake, TLS abort after ClientHello, TLS certificate rejected by the common-name rule, valid TLS client then reset, valid TLS client then orderly close}, real crypto/tls, every schedule with <=1 deviation; after each ending, at quiescence: the server closed that socket, no server goroutine is parked on it, the registry holds exactly the background connections, which are still served; finally Stop releases everything (sockets, goroutines, registry, listeners). Plus Stop racing with a connecting client, a client still in the accept backlog, a client with a command in flight, a client in the TLS handshake and one stalled before its ClientHello (deviation bound 2).",
 		Assumptions: []string{"the in-memory transport is the only kind of descriptor the framework opens besides listeners: 'descriptor released' = Close called on it", "10^4-cycle churn and /proc/self/fd counts are replaced by zero residue per ending from every reachable small registry state"},
 		Run:         c19Run,
 		Replay:      c19Replay,
